@@ -20,6 +20,16 @@ def run (op : String) (a : Array String) : Option String :=
     if a.size < 1 + k then none else
     let xs := (List.range k).map (fun i => rdF64 a[1 + i]!)
     some (wr_tf (iter.impl_Sum_T_for_TwoFloat.sum xs))
+  | "fold_tf" =>
+    let k := a[0]!.toNat!
+    if a.size < 1 + 2 * k then none else
+    let xs := (List.range k).map (fun i => rdTF a[1 + 2 * i]! a[2 + 2 * i]!)
+    some (wr_tf (xs.foldl arithmetic.impl_Add_TwoFloat_for_TwoFloat.add num_integration.impl_Zero_for_TwoFloat.zero))
+  | "fold_f64" =>
+    let k := a[0]!.toNat!
+    if a.size < 1 + k then none else
+    let xs := (List.range k).map (fun i => rdF64 a[1 + i]!)
+    some (wr_tf (xs.foldl arithmetic.impl_Add_f64_for_TwoFloat.add num_integration.impl_Zero_for_TwoFloat.zero))
   | _ => none
 
 end Extra
